@@ -341,7 +341,8 @@ Returns:
     IGNORE_ATTRS = ['fmt', 'n_header_lines', 'PI_NAME', 'ORGANIZATION_NAME',
                     'SOURCE_DESCRIPTION', 'MISSION_NAME', 'VOLUME_INFO',
                     'SDATE', 'WDATE', 'TIME_INTERVAL', 'INDEPENDENT_VARIABLE',
-                    'TFLAG']
+                    'INDEPENDENT_VARIABLE_DEFINITION',
+                    'INDEPENDENT_VARIABLE_UNITS', 'TFLAG']
     depvarkeys = [k for k in f.variables.keys() if k != f.INDEPENDENT_VARIABLE]
     myattrs = [k for k in f.ncattrs() if k not in IGNORE_ATTRS]
     print('%d, %d' % (len(myattrs) + len(depvarkeys) + 15, 1001), file=outfile)
@@ -354,7 +355,8 @@ Returns:
                            datetime.today().strftime('%Y, %m, %d')),
           file=outfile)
     print(getattr(f, 'TIME_INTERVAL', 0), file=outfile)
-    print(f.INDEPENDENT_VARIABLE, file=outfile)
+    print(getattr(f, 'INDEPENDENT_VARIABLE_DEFINITION',
+                  f.INDEPENDENT_VARIABLE), file=outfile)
     print('%d' % len(depvarkeys), file=outfile)
     print(delim.join(['1' for k in depvarkeys]), file=outfile)
     print(delim.join([str(getattr(f.variables[k], 'missing_value', -999))
